@@ -157,6 +157,9 @@ def covers(quick):
             ("two-writers", dict(MaxPeer=3, MaxCalls=3, MaxWriters=2, PeerKinds=KINDS3, CallApis=APIS4), 1),
             ("re-entrant", dict(MaxPeer=3, MaxCalls=2, MaxWriters=2, ReadThens="{0, 2}", WriteThens="{0, 1}", Glue="TRUE",
                                 PeerKinds='{"data", "ping"}', CallApis=APIS4), 1),
+            # the caller-built-frame path of the write side, next to a read loop answering Pings
+            ("frame-writer", dict(MaxPeer=2, MaxCalls=3, MaxWriters=1, PeerKinds='{"data", "ping"}',
+                                  CallApis='{"AsyncNextFrame", "AsyncWriteFrame", "AsyncFlush"}'), 1),
         ]
     return [
         ("all-apis", dict(MaxPeer=3, MaxCalls=4, MaxWriters=1, PeerKinds=KINDS6, CallApis=APIS6), 3),
